@@ -5,7 +5,7 @@ package internal
 import "sync/atomic"
 
 // VerifYield, when set, is called before every atomic operation of the read
-// buffer and of the reader-biased mutex with a program-point number, so that a test harness can step threads
+// buffer, of the reader-biased mutex and of the striped counter with a program-point number, so that a test harness can step threads
 // one atomic operation at a time. Only compiled with the verif build tag.
 var VerifYield atomic.Pointer[func(int)]
 
